@@ -18,7 +18,8 @@ K = 'pywbem/_cim_operations.py::WBEMConnection.'
 CLASS_SPECS = {'CIMInstanceName': {'host': Opt(Str), 'namespace': Opt(Str), 'classname': Str},
                'CIMClassName': {'host': Opt(Str), 'namespace': Opt(Str), 'classname': Str}}
 CONN = Obj('WBEMConnection', default_namespace=Str, conn_id=Opt(Str), debug=Bool)
-LOCAL = 'localobject.host is None and localobject.namespace is not None'
+def local(o):
+    return f'{o}.host is None and {o}.namespace is not None'
 
 verify_open = Contract(K + '_verify_open', raises={'ConnectionError': Raises()}, trusted=True)
 path_copy_i = Contract('pywbem/_cim_obj.py::CIMInstanceName.copy', returns=Ref('CIMInstanceName'), trusted=True,
@@ -31,13 +32,13 @@ classname_init = Contract('pywbem/_cim_obj.py::CIMClassName.__init__', trusted=T
                           raises={},
                           notes='A-CIMOBJ: the constructor stores its arguments and accepts any str class name')
 header_c = Contract('pywbem/_cim_http.py::get_cimobject_header', returns=Str,
-                    caller_requires=[LOCAL],
+                    requires=[local('obj')],
                     notes='the CIMObject header of an extrinsic call names a local path (same target as the body)')
 tocimxml_i = Contract('pywbem/_cim_obj.py::CIMInstanceName.tocimxml', returns=Ref('Element'), trusted=True,
-                      caller_requires=[LOCAL],
+                      requires=[local('self')],
                       notes='tocimxml() yields LOCALINSTANCEPATH exactly for host None and namespace set')
 tocimxml_c = Contract('pywbem/_cim_obj.py::CIMClassName.tocimxml', returns=Ref('Element'), trusted=True,
-                      caller_requires=[LOCAL])
+                      requires=[local('self')])
 toxml_c = Contract('external::Element.toxml', sig=['self'], returns=Str, trusted=True)
 wbem_request_c = Contract('pywbem/_cim_http.py::wbem_request', never_returns=True,
                           raises={'ConnectionError': Raises()}, trusted=True,
